@@ -87,20 +87,24 @@ pub fn dispatch(n: usize, srw: &ASrw, dests: &[usize], w: &mut impl std::io::Wri
         6 => apl_line::<6>(srw, dests, w),
         8 => apl_line::<8>(srw, dests, w),
         16 => apl_line::<16>(srw, dests, w),
+        33 => apl_line::<33>(srw, dests, w),
         64 => apl_line::<64>(srw, dests, w),
         _ => return false,
     }
     true
 }
 
-fn stream(rng: &mut Rng) -> Vec<u8> {
+fn stream(rng: &mut Rng, size: usize) -> Vec<u8> {
     let mut s = vec![];
     let k = 1 + rng.below(3);
     for _ in 0..k {
-        let n = [0usize, 1, 2, 3, 5, 9][rng.below(6)];
+        let n = [0usize, 1, 2, 3, 5, 9, size - 1, size, size + 7, 15, 31][rng.below(11)].min(79);
         s.push(0x30 + n as u8);
         if rng.chance(1, 3) {
-            s.push(b'h');
+            let hl = [1usize, size / 2, size.saturating_sub(3)][rng.below(3)];
+            for i in 0..hl {
+                s.push([b'h', 0x80, 0x0b, b'\r'][i % 4]);
+            }
         }
         if rng.chance(1, 4) {
             s.push(b'\r');
@@ -123,18 +127,18 @@ fn stream(rng: &mut Rng) -> Vec<u8> {
 
 pub fn run(thorough: bool, seed: u64, w: &mut impl std::io::Write) {
     let mut rng = Rng(seed ^ 0xa91);
-    let scheds: Vec<Vec<usize>> = vec![vec![], vec![1], vec![2], vec![0, 1], vec![1, 0, 2], vec![3, 0, 0, 1]];
+    let scheds: Vec<Vec<usize>> = vec![vec![], vec![1], vec![2], vec![0, 1], vec![1, 0, 2], vec![3, 0, 0, 1], vec![9], vec![16, 0, 7]];
     let cases = if thorough { 40000 } else { 5000 };
     let mut n = 0;
     for _ in 0..cases {
-        let s = stream(&mut rng);
+        let size = [4usize, 5, 6, 8, 16, 33, 64][rng.below(7)];
+        let s = stream(&mut rng, size);
         let na = rng.below(16);
         // Pending at any poll (also on writes), chunks of any size, scribbling short fills
-        let racts: Vec<RAct> = (0..na).map(|_| if rng.chance(1, 3) { RAct::Pending } else { RAct::Data(1 + rng.below(6), rng.chance(1, 8)) }).collect();
+        let racts: Vec<RAct> = (0..na).map(|_| if rng.chance(1, 3) { RAct::Pending } else { RAct::Data([1usize, 2, 3, 7, 8, 9, size, 1000][rng.below(8)], rng.chance(1, 8)) }).collect();
         let mut srw = ASrw::new(1, &s, racts);
         let nw = rng.below(4);
         srw.wacts = (0..nw).map(|_| if rng.chance(1, 2) { WAct::Pending } else { WAct::Full }).collect();
-        let size = [4usize, 5, 6, 8, 16, 64][rng.below(6)];
         let ds = &scheds[rng.below(scheds.len())];
         if dispatch(size, &srw, ds, w) {
             n += 1;
